@@ -380,3 +380,14 @@ Fixpoint memo_divisors (c : list (Z * Z)) (os : list value) : list (option Z) :=
       | _, r => r :: memo_divisors c t
       end
   end.
+
+(* ------------------------------------------------------------------ Interval: the absolute flag, -i, abs(i) *)
+(* Interval(start, end, absolute): `if absolute and start > end: end, start = start, end` (in __new__ and in __init__), then
+   Duration.__new__(seconds=(end - start).total_seconds()).  delta = end - start of the end points AS GIVEN. *)
+Definition ivl_eff (delta : Z) (absolute : bool) : Z := if absolute && (delta <? 0) then - delta else delta.
+Definition interval_new_abs (delta : Z) (absolute : bool) : result dur := interval_new (ivl_eff delta absolute).
+(* Interval.__neg__: self.__class__(self.end, self.start, self._absolute) on the STORED end points (end - start = ivl_eff):
+   an absolute Interval swaps them back, so its negation is itself *)
+Definition interval_neg (delta : Z) (absolute : bool) : result dur := interval_new_abs (- ivl_eff delta absolute) absolute.
+(* Interval.__abs__: self.__class__(self.start, self.end, absolute=True) *)
+Definition interval_abs (delta : Z) (absolute : bool) : result dur := interval_new_abs (ivl_eff delta absolute) true.
